@@ -119,10 +119,11 @@ for _c, _n in ((0, 'int'), (3, 'exp')):
 # fixed point: one run per divisor of the property's quantifier {built-in 2,16,256,1000; +-10^k}; the floating point
 # multiplication/division by a symbolic divisor does not finish, a concrete divisor does (harness-enforced, B2)
 _QUICK_DIVS = (10, 256, -10, 1000)     # kissat: 40-60 s per divisor (MiniSat: 250-400 s)
-# multipliers beyond 10^6 did not finish within 1800 s with either back end and are not claimed
-for _d in [2, 16, 256] + [10 ** k for k in range(1, 10)] + [-(10 ** k) for k in range(1, 7)]:
+# the time grows with the magnitude (10^7: 600-800 s, 10^8: 1500 s, 10^9 and multipliers beyond 10^6: no result within 1800 s with either back end);
+# divisors up to 10^7 and multipliers up to 10^5 are claimed, the larger ones are not
+for _d in [2, 16, 256] + [10 ** k for k in range(1, 8)] + [-(10 ** k) for k in range(1, 6)]:
     R('parseInput_fix_div%s' % str(_d).replace('-', 'm'), 'h_parseInput_b2', None, defines=['CASE_PI=%d' % (1 if _d > 0 else 2), 'CASE_DIV=%d' % _d],
-      props=('C07', 'C12', 'C20'), cost=80, solver='kissat', tier='quick' if _d in _QUICK_DIVS else 'thorough')
+      props=('C07', 'C12', 'C20'), cost=80, solver='kissat', timeout=3000, tier='quick' if _d in _QUICK_DIVS else 'thorough')
 for _b in (0, 1):
     for _l in (1, 2, 3, 4):
         if (_b, _l) != (1, 4):   # BCD 4 bytes: did not finish in 3000 s
